@@ -33,11 +33,19 @@ def ITE(g, a, b):
     if g is True: return a
     if g is False: return b
     if a is b: return b
+    if isinstance(a, SLog) or isinstance(b, SLog):
+        return SLog(z3.simplify(z3.If(g, a.p, b.p)))
     if not is_sym(a) and not is_sym(b) and type(a) == type(b) and a == b: return a
     za, zb = zv(a), zv(b)
     if z3.is_int(za) and z3.is_real(zb): za = z3.ToReal(za)
     if z3.is_real(za) and z3.is_int(zb): zb = z3.ToReal(zb)
     return z3.simplify(z3.If(g, za, zb))
+
+class SLog:
+    """log2-domain number represented by its linear-domain value p >= 0 (p == 0 <=> -inf)."""
+    def __init__(self, p): self.p = zv(p) if not is_sym(p) else p
+    def __repr__(self): return f"SLog({self.p})"
+NEG_INF = SLog(z3.RealVal(0))
 
 class Arr:
     """numpy object array with guarded stores and symbolic index loads; records OOB obligations."""
@@ -46,6 +54,7 @@ class Arr:
     @property
     def shape(self): return self.a.shape
     def __len__(self): return self.a.shape[0]
+    def __iter__(self): return iter(self.a[k] for k in range(self.a.shape[0]))
     def _norm(self, idx):
         if not isinstance(idx, tuple): idx = (idx,)
         return idx
@@ -141,6 +150,7 @@ class Interp:
             if z3.is_int(x): return x
             return z3.simplify(z3.If(x >= 0, z3.ToInt(x), -z3.ToInt(-x)))
         return int(x)
+    inf = numpy.inf
     def arange(self, n):
         return Arr(numpy.array(list(range(int(n))), dtype=object), "arange", self.errs)
     @property
@@ -276,6 +286,9 @@ class Interp:
         if is_sym(v): return simp(v)
         return bool(v)
     def binop(self, op, a, b):
+        if isinstance(a, SLog) or isinstance(b, SLog):
+            assert isinstance(op, ast.Add) and isinstance(a, SLog) and isinstance(b, SLog)
+            return SLog(z3.simplify(a.p * b.p))
         if not is_sym(a) and not is_sym(b):
             return {ast.Add: lambda: a+b, ast.Sub: lambda: a-b, ast.Mult: lambda: a*b, ast.FloorDiv: lambda: a//b, ast.Div: lambda: a/b, ast.Pow: lambda: a**b}[type(op)]()
         a, b = zv(a), zv(b)
@@ -301,7 +314,9 @@ class Interp:
         if isinstance(e, ast.BinOp): return self.binop(e.op, self.ev(e.left, env, g), self.ev(e.right, env, g))
         if isinstance(e, ast.UnaryOp):
             v = self.ev(e.operand, env, g)
-            if isinstance(e.op, ast.USub): return -v
+            if isinstance(e.op, ast.USub):
+                if v is numpy.inf or (isinstance(v, float) and v == float('inf')): return NEG_INF
+                return -v
             if isinstance(e.op, ast.Not): return NOT(self.truth(v))
         if isinstance(e, ast.BoolOp):
             vals = [self.truth(self.ev(x, env, g)) for x in e.values]   # no short-circuit side effects in kernels
@@ -310,7 +325,9 @@ class Interp:
             l = self.ev(e.left, env, g); res = []
             for op, r in zip(e.ops, e.comparators):
                 r = self.ev(r, env, g)
-                if not is_sym(l) and not is_sym(r):
+                if isinstance(l, SLog) or isinstance(r, SLog):
+                    c = simp(l.p != r.p) if isinstance(op, ast.NotEq) else simp(l.p == r.p)
+                elif not is_sym(l) and not is_sym(r):
                     c = {ast.Lt: l < r, ast.LtE: l <= r, ast.Gt: l > r, ast.GtE: l >= r, ast.Eq: l == r, ast.NotEq: l != r}[type(op)]
                 else:
                     a, b = zv(l), zv(r)
